@@ -119,11 +119,18 @@ static int mutations() {
   return 0;
 }
 
+// month lengths of the proleptic Gregorian calendar, independent of the library (bounds the enumeration below)
+static int own_dim(int y, int m) {
+  static const int d[12] = {31, 28, 31, 30, 31, 30, 31, 31, 30, 31, 30, 31};
+  bool leap = (y % 4 == 0 && y % 100 != 0) || y % 400 == 0;
+  return d[m - 1] + ((m == 2 && leap) ? 1 : 0);
+}
+
 // C18: days <yearLo> <yearHi>: calcStartDayOfMonth for every (year, month, dow 0..7, dom -31..31)
 static int days(int y0, int y1) {
   for (int y = y0; y <= y1; y++) for (int m = 1; m <= 12; m++) for (int dow = 0; dow <= 7; dow++)
     for (int dom = -31; dom <= 31; dom++) {
-      int dim = LocalDate::daysInMonth((int16_t) y, (uint8_t) m);
+      int dim = own_dim(y, m);
       int lim = dom < 0 ? -dom : dom;
       if (dow == 0 && (dom < 1 || dom > dim)) continue;
       if (lim > dim) continue;    // the limit date must exist
@@ -134,7 +141,7 @@ static int days(int y0, int y1) {
   // same answers whatever was asked before
   for (int y = y1; y >= y0; y--) for (int m = 12; m >= 1; m--) for (int dom = 31; dom >= -31; dom--)
     for (int dow = 7; dow >= 0; dow--) {
-      int dim = LocalDate::daysInMonth((int16_t) y, (uint8_t) m);
+      int dim = own_dim(y, m);
       int lim = dom < 0 ? -dom : dom;
       if (dow == 0 && (dom < 1 || dom > dim)) continue;
       if (lim > dim) continue;
